@@ -289,7 +289,7 @@ pub fn exec(spec: &Spec, r: &mut RunResult) {
         r.shape = rec.shape.0;
         r.log = rec.log.0;
         if r.idx % 61 == 0 {
-            r.sample = Some(serde_json::json!({"world": spec.world.source, "goal": spec.world.goals[prim.goal], "solver": cfg0.name(), "should_continue_calls": n, "schedules_run": scheds.len(), "followups": spec.ops.iter().skip(1).map(|o| format!("{:?} slot{} `{}`", o.kind, o.slot, spec.world.goals[o.goal])).collect::<Vec<_>>()}));
+            r.sample = Some(serde_json::json!({"world": spec.world.source, "program": spec.world.program_text().chars().take(500).collect::<String>(), "goal": spec.world.goals[prim.goal], "solver": cfg0.name(), "should_continue_calls": n, "schedules_run": scheds.len(), "followups": spec.ops.iter().skip(1).map(|o| format!("{:?} slot{} `{}`", o.kind, o.slot, spec.world.goals[o.goal])).collect::<Vec<_>>()}));
         }
     });
 }
